@@ -192,16 +192,55 @@ Proof.
   apply Qle_shift_div_l; [apply qpow_pos; assumption|lra].
 Qed.
 
+(* Markov: coefficients c_i >= 0 with c_0 > 0 *)
+Lemma qpoly_pos cs x : 0 <= x -> Forall (fun c => 0 <= c) cs -> (match cs with c :: _ => 0 < c | [] => False end) -> 0 < qpoly cs x.
+Proof.
+  intros Hx Hc H0. destruct cs as [|c r]; [contradiction|]. cbn [qpoly].
+  assert (G : forall l, Forall (fun c => 0 <= c) l -> 0 <= qpoly l x).
+  { induction l as [|a l IH]; intro Hl; cbn [qpoly]; [lra|]. inversion Hl as [|? ? Ha Hr]; subst. specialize (IH Hr). nra. }
+  inversion Hc as [|? ? Ha Hr]; subst. specialize (G r Hr). nra.
+Qed.
+Lemma spec_markov_nonneg cs scale n :
+  Forall (fun c => 0 <= c) cs -> (match cs with c :: _ => 0 < c | [] => False end) -> Forall (fun x => 0 <= x) (spec_markov cs scale n).
+Proof.
+  intros Hc H0. apply Forall_map_seq. intro j. cbv zeta.
+  set (jq := inject_Z (Z.of_nat j)).
+  assert (0 <= jq) by (unfold jq; replace 0 with (inject_Z 0) by reflexivity; rewrite <- Zle_Qle; lia).
+  assert (0 <= scale * scale * jq * (jq + 1)) by (assert (0 <= scale * scale) by nra; assert (0 <= jq * (jq + 1)) by nra; nra).
+  apply Qle_shift_div_l; [apply qpoly_pos; assumption|lra].
+Qed.
+(* Exponential on the sphere: for ANY value e of exp(-nu pi) in [0,1] the coefficients of the recursion are >= 0 *)
+Lemma spec_exp_gen_nonneg nu e : 0 <= e -> e <= 1 -> forall k, 0 <= spec_exp_gen nu e k.
+Proof.
+  intros H0 H1.
+  assert (N : 0 <= nu * nu) by nra.
+  assert (P : forall k, 0 <= spec_exp_gen nu e k /\ 0 <= spec_exp_gen nu e (S k)).
+  { induction k as [|k [IH0 IH1]].
+    - split; cbn [spec_exp_gen]; apply Qle_shift_div_l; try lra; nra.
+    - split; [exact IH1|].
+      change (spec_exp_gen nu e (S (S k))) with
+        (let kq := inject_Z (Z.of_nat (S (S k))) in
+         (2 * kq + 1) / (2 * kq - 3) * (nu * nu + (kq - 2) * (kq - 2)) / (nu * nu + (kq + 1) * (kq + 1)) * spec_exp_gen nu e k).
+      cbv zeta. set (kq := inject_Z (Z.of_nat (S (S k)))).
+      assert (Hk : 2 <= kq) by (unfold kq; replace 2 with (inject_Z 2) by reflexivity; rewrite <- Zle_Qle; lia).
+      assert (A : 0 <= (2 * kq + 1) / (2 * kq - 3)) by (apply Qle_shift_div_l; lra).
+      assert (B : 0 <= nu * nu + (kq - 2) * (kq - 2)) by nra.
+      assert (C : 0 < nu * nu + (kq + 1) * (kq + 1)) by nra.
+      apply Qmult_le_0_compat; [|exact IH0].
+      apply Qle_shift_div_l; [exact C|]. rewrite Qmult_0_l. apply Qmult_le_0_compat; assumption. }
+  intro k. apply (P k).
+Qed.
+
 (* every spectrum of the model has non-negative coefficients (rho, lambda >= 0) *)
 Lemma sphere_spectrum_nonneg type param scale n l :
   0 <= scale -> 0 <= param -> sphere_spectrum type param scale n = Some l -> Forall (fun x => 0 <= x) l.
 Proof.
   intros Hs Hp. unfold sphere_spectrum.
   destruct type as [|p|p]; try discriminate. do 5 (try (destruct p as [p|p|]); try discriminate).
-  - destruct (_ && _); [|discriminate]. intro H. injection H as <-. apply normalize1_nonneg, spec_matern_nonneg.
-  - intro H. injection H as <-. apply normalize1_nonneg, spec_poisson_nonneg, Hp.
-  - intro H. injection H as <-. apply normalize1_nonneg, spec_linearsph_nonneg.
-  - intro H. injection H as <-. apply normalize1_nonneg, spec_geometric_nonneg, Hs.
+  all: try (match goal with |- (if ?c then _ else _) = _ -> _ => destruct c; [|discriminate] end).
+  all: intro H; injection H as <-; apply normalize1_nonneg.
+  all: first [apply spec_matern_nonneg | apply spec_poisson_nonneg; exact Hp | apply spec_linearsph_nonneg
+             | apply spec_geometric_nonneg; exact Hs | apply spec_markov_nonneg; [repeat constructor; discriminate|reflexivity]].
 Qed.
 
 (* Schoenberg (cited): the matrices P_k(cos theta_ij) of the Legendre polynomials are PSD for points of the sphere.
